@@ -2,6 +2,7 @@
 base strings, known-finding signatures (predicates over a failing case)."""
 
 KIND_NAMES = {
+    901: 'C09/picker: piecepicker (peer half) under the torrent glue vs Picker.v (picks validated against the legal set)',
     1501: 'C15/udp_packet: UDP announce datagram vs Tracker.udp_announce',
     1502: 'C15/http_query: HTTP announce query vs Tracker.http_query',
     1503: 'C15/announcer: PeriodicalAnnouncer events and gaps vs Announcer.v (timing tolerance -25/+600 ms)',
@@ -39,6 +40,11 @@ TRUSTED_COMMON = [
 ]
 
 PROPS = {
+    'C09': {
+        'kinds': {901: {'quick': 1500, 'thorough': 40000}},
+        'trusted': ['slices.SortFunc returns a permutation sorted by the key (ties in any order)', 'markFileEdges (file head/tail flags are taken from the real picker)'],
+        'assumptions': ['the torrent loop calls the picker under the glue discipline modelled by Picker.pstep'],
+    },
     'C03': {
         'kinds': {301: {'quick': 3000, 'thorough': 60000}, 302: {'quick': 3000, 'thorough': 60000}},
         'trusted': ['container/heap keeps the least recently used item at index 0; time.AfterFunc TTL expiry is not exercised (TTL one hour)'],
@@ -100,6 +106,9 @@ def distribution(pid, cases):
 # kinds whose observations carry wall-clock measurements: agreement is decided by the monitor
 # (model prediction compared with a tolerance), not by exact equality of the two outputs
 MONITOR_DECIDES = {1503}
+
+# kind -> (tag kind, names): the model is run a second time to histogram the branches the cases reach
+TAG_KINDS = {901: (902, {1: 'peer already downloading', 2: 'no pick allowed (choked)', 3: 'allowed-fast / sequential-first', 4: 'file edge or sequential', 5: 'stage reached, no candidate', 6: 'end-game pick', 7: 'end-game starts', 8: 'stalled re-request', 9: 'rarest'})}
 
 # known-finding signatures: id -> predicate over a case dict (kind, in, obs, exp, mon)
 SIGNATURES = {}
